@@ -99,7 +99,15 @@ func (c *replacerCompiler) compile(v reflect.Value) Replacer {
 		}
 
 	case goast.ObjectPtrType:
-		// Ident.Obj forms a cycle so we'll replace it with a nil pointer.
+		// Ident.Obj forms a cycle, so it is not copied. An identifier of
+		// the code that a metavariable captured (compiled without
+		// metavariables) keeps referring to the object it refers to:
+		// that is what tells a local variable from the package of the
+		// same name when imports are cleaned up. Those of the patch
+		// refer to none.
+		if c.meta == nil {
+			return ValueReplacer{Value: v}
+		}
 		return ValueReplacer{
 			Value: reflect.ValueOf((*ast.Object)(nil)),
 		}
